@@ -9,12 +9,16 @@
      AwaitCall(r,k)  a reader goroutine calls Await (nothing has happened inside the store yet)
      Query(r)        v1: Run receives the query, execQuery answers it or appends it to blockedQueries
                      v2: query() under the read lock finds the value or the reader goes to sleep on the channel
-     StoreCall(S)    Store(duty,set) is called             (v2: takes the write lock until StoreReturn)
-     StoreEntry(e)   one entry of the set, in Go map order (=> nondeterministic): v1 = one writeCommand through
+     StoreCall(w,S)  writer goroutine w calls Store(duty,set); several writers may be inside Store concurrently
+     Acquire(w)      v2: w gets the write lock (held until StoreReturn; v1 has no lock, its actor loop serves one
+                     write command at a time, commands of concurrent writers interleave)
+     StoreEntry(w,e) one entry of the set, in Go map order (=> nondeterministic): v1 = one writeCommand through
                      execCommand + processBlockedQueries; v2 = one iteration of the loop inside the lock.
                      New key: stored.  Equal value: no-op.  Different value: "mismatching data", the call stops,
                      EARLIER ENTRIES STAY STORED.
-     StoreReturn     v2: wake the sleepers (see the switches), release the lock
+     StoreReturn(w)  the call is over inside the store: v2 wakes the sleepers (see the switches), releases the lock
+     StoreAck(w)     the caller has the result (separate step: the order in which callers SEE their results is not
+                     the order in which the calls finished inside the store)
      TakeToken(r)    v2 as coded only: ONE sleeper receives the token of the capacity-1 channel
      Cancel(r)       the reader's context is cancelled
      ReturnVal(r) / ReturnErr(r)    Await returns the value it got / the context error
@@ -23,91 +27,129 @@
    Switches for memory_v2.go (control configurations; the required behaviour is TRUE/TRUE):
      WakeAll = FALSE       as coded on the pinned tree: `notify` has capacity 1, one Store wakes ONE arbitrary sleeper
      NotifyOnFail = FALSE  as coded on the pinned tree: a Store that fails on a later entry returns before it
-                           notifies although earlier entries were stored *)
+                           notifies although earlier entries were stored
+     NarrowLock = TRUE     a "narrowed" write lock (seeded defect C17-B): v2 looks the key up in one critical section
+                           (CheckEntry) and inserts in a later one (InsertEntry), nothing held in between, so two
+                           concurrent writers can both find a fresh key absent and both insert *)
 EXTENDS Integers, Sequences, FiniteSets, TLC
-CONSTANTS WakeAll, NotifyOnFail
+CONSTANTS WakeAll, NotifyOnFail, NarrowLock
 Nil == "nil"
 Err == "err"
 VARIABLES impl,     \* "v1" | "v2"
           data,     \* stored key -> value                              (db.data)
           rd,       \* reader -> [st, k, got, cx]
           notify,   \* v2 as coded: number of tokens in the notify channel (0/1)
-          wr,       \* the Store call in progress
-          last,     \* history: result of the last completed Store call
-          written   \* history: every <<key, value>> ever put into data
-vars == <<impl, data, rd, notify, wr, last, written>>
+          wr,       \* writer -> the Store call it is in
+          last,     \* history: writer -> result of its last completed Store call
+          written,  \* history: every <<key, value>> ever put into data
+          acked     \* history: every <<key, value>> entry a Store call processed without error (stored or equal)
+vars == <<impl, data, rd, notify, wr, last, written, acked>>
 
-NoWr == [on |-> FALSE, todo |-> {}, err |-> FALSE]
+NoWr == [on |-> FALSE, locked |-> FALSE, fin |-> FALSE, todo |-> {}, err |-> FALSE, pend |-> {}]
 Live(r) == r \in DOMAIN rd /\ rd[r].st \in {"called", "wait", "retry", "done"}
 Stored(k) == k \in DOMAIN data
-\* v2: the write lock is held from StoreCall to StoreReturn; v1: the actor loop serves one message at a time,
-\* queries may be served between two write commands of one Store call
-LockFree == impl = "v1" \/ ~wr.on
+WrOn(w) == w \in DOMAIN wr /\ wr[w].on
+AnyWr == \E w \in DOMAIN wr : wr[w].on
+Locked == \E w \in DOMAIN wr : wr[w].on /\ wr[w].locked
+\* v2: readers (RLock) and the expiry (Lock) wait while a writer holds the write lock; v1: the actor loop serves one
+\* message at a time, queries may be served between two write commands of one Store call
+LockFree == impl = "v1" \/ ~Locked
+\* may writer w execute inside the store now?
+Inside(w) == WrOn(w) /\ ~wr[w].fin /\ (impl = "v1" \/ NarrowLock \/ wr[w].locked)
 
-Init == /\ impl \in {"v1", "v2"} /\ data = <<>> /\ rd = <<>> /\ notify = 0 /\ wr = NoWr
-        /\ last = Nil /\ written = {}
+Init == /\ impl \in {"v1", "v2"} /\ data = <<>> /\ rd = <<>> /\ notify = 0 /\ wr = <<>>
+        /\ last = <<>> /\ written = {} /\ acked = {}
 
 AwaitCall(r, k) ==
   /\ r \notin DOMAIN rd
   /\ rd' = rd @@ (r :> [st |-> "called", k |-> k, got |-> Nil, cx |-> FALSE])
-  /\ UNCHANGED <<impl, data, notify, wr, last, written>>
+  /\ UNCHANGED <<impl, data, notify, wr, last, written, acked>>
 
 Query(r) ==
   /\ r \in DOMAIN rd /\ rd[r].st \in {"called", "retry"} /\ LockFree
   /\ IF Stored(rd[r].k)
        THEN rd' = [rd EXCEPT ![r].st = "done", ![r].got = data[rd[r].k]]
        ELSE rd' = [rd EXCEPT ![r].st = "wait"]
-  /\ UNCHANGED <<impl, data, notify, wr, last, written>>
+  /\ UNCHANGED <<impl, data, notify, wr, last, written, acked>>
 
-StoreCall(S) ==
-  /\ ~wr.on /\ S # {}
-  /\ wr' = [on |-> TRUE, todo |-> S, err |-> FALSE]
-  /\ UNCHANGED <<impl, data, rd, notify, last, written>>
+SetWr(w, rec) == wr' = [x \in DOMAIN wr \cup {w} |-> IF x = w THEN rec ELSE wr[x]]
+StoreCall(w, S) ==
+  /\ ~WrOn(w) /\ S # {}
+  /\ SetWr(w, [NoWr EXCEPT !.on = TRUE, !.todo = S])
+  /\ UNCHANGED <<impl, data, rd, notify, last, written, acked>>
+
+Acquire(w) ==
+  /\ impl = "v2" /\ ~NarrowLock /\ WrOn(w) /\ ~wr[w].fin /\ ~wr[w].locked /\ ~Locked
+  /\ wr' = [wr EXCEPT ![w].locked = TRUE]
+  /\ UNCHANGED <<impl, data, rd, notify, last, written, acked>>
 
 \* v1 processBlockedQueries (runs after EVERY write command): each blocked query whose key is stored is answered
 AnswerBlocked(d) == [r \in DOMAIN rd |-> IF rd[r].st = "wait" /\ rd[r].k \in DOMAIN d
                                            THEN [rd[r] EXCEPT !.st = "done", !.got = d[rd[r].k]] ELSE rd[r]]
-StoreEntry(e) ==
-  /\ wr.on /\ ~wr.err /\ e \in wr.todo
+WakeSleepers == [r \in DOMAIN rd |-> IF rd[r].st = "wait" THEN [rd[r] EXCEPT !.st = "retry"] ELSE rd[r]]
+StoreEntry(w, e) ==
+  /\ Inside(w) /\ ~(NarrowLock /\ impl = "v2") /\ ~wr[w].err /\ e \in wr[w].todo
   /\ IF Stored(e.k)
        THEN /\ UNCHANGED <<data, written>>
-            /\ IF data[e.k] = e.v THEN wr' = [wr EXCEPT !.todo = @ \ {e}]
-                                  ELSE wr' = [wr EXCEPT !.todo = {}, !.err = TRUE]
+            /\ IF data[e.k] = e.v THEN wr' = [wr EXCEPT ![w].todo = @ \ {e}] /\ acked' = acked \cup {<<e.k, e.v>>}
+                                  ELSE wr' = [wr EXCEPT ![w].todo = {}, ![w].err = TRUE] /\ UNCHANGED acked
        ELSE /\ data' = data @@ (e.k :> e.v)
             /\ written' = written \cup {<<e.k, e.v>>}
-            /\ wr' = [wr EXCEPT !.todo = @ \ {e}]
+            /\ acked' = acked \cup {<<e.k, e.v>>}
+            /\ wr' = [wr EXCEPT ![w].todo = @ \ {e}]
   /\ rd' = IF impl = "v1" THEN AnswerBlocked(data') ELSE rd
   /\ UNCHANGED <<impl, notify, last>>
 
-StoreReturn ==
-  /\ wr.on /\ (wr.todo = {} \/ wr.err)
-  /\ wr' = NoWr
-  /\ last' = IF wr.err THEN "mismatch" ELSE "ok"
-  /\ IF impl = "v2" /\ (~wr.err \/ NotifyOnFail)
+\* NarrowLock (control only): lookup and insert of an entry are two critical sections
+CheckEntry(w, e) ==
+  /\ NarrowLock /\ impl = "v2" /\ Inside(w) /\ ~wr[w].err /\ wr[w].pend = {} /\ e \in wr[w].todo
+  /\ IF Stored(e.k)
+       THEN IF data[e.k] = e.v THEN wr' = [wr EXCEPT ![w].todo = @ \ {e}] /\ acked' = acked \cup {<<e.k, e.v>>}
+                               ELSE wr' = [wr EXCEPT ![w].todo = {}, ![w].err = TRUE] /\ UNCHANGED acked
+       ELSE wr' = [wr EXCEPT ![w].pend = {e}] /\ UNCHANGED acked
+  /\ UNCHANGED <<impl, data, rd, notify, last, written>>
+InsertEntry(w) ==
+  /\ NarrowLock /\ impl = "v2" /\ Inside(w) /\ wr[w].pend # {}
+  /\ LET e == CHOOSE x \in wr[w].pend : TRUE IN
+       /\ data' = [k \in DOMAIN data \cup {e.k} |-> IF k = e.k THEN e.v ELSE data[k]]      \* overwrites
+       /\ written' = written \cup {<<e.k, e.v>>} /\ acked' = acked \cup {<<e.k, e.v>>}
+       /\ wr' = [wr EXCEPT ![w].todo = @ \ {e}, ![w].pend = {}]
+  /\ rd' = WakeSleepers
+  /\ UNCHANGED <<impl, notify, last>>
+
+StoreReturn(w) ==
+  /\ Inside(w) /\ wr[w].pend = {} /\ (wr[w].todo = {} \/ wr[w].err)
+  /\ wr' = [wr EXCEPT ![w].fin = TRUE, ![w].locked = FALSE]
+  /\ IF impl = "v2" /\ ~NarrowLock /\ (~wr[w].err \/ NotifyOnFail)
        THEN IF WakeAll
-              THEN /\ rd' = [r \in DOMAIN rd |-> IF rd[r].st = "wait" THEN [rd[r] EXCEPT !.st = "retry"] ELSE rd[r]]
-                   /\ UNCHANGED notify
+              THEN rd' = WakeSleepers /\ UNCHANGED notify
               ELSE notify' = 1 /\ UNCHANGED rd        \* non-blocking send on a channel of capacity 1
        ELSE UNCHANGED <<rd, notify>>
-  /\ UNCHANGED <<impl, data, written>>
+  /\ UNCHANGED <<impl, data, last, written, acked>>
+
+StoreAck(w) ==
+  /\ WrOn(w) /\ wr[w].fin
+  /\ wr' = [wr EXCEPT ![w] = NoWr]
+  /\ last' = [x \in DOMAIN last \cup {w} |-> IF x = w THEN (IF wr[w].err THEN "mismatch" ELSE "ok") ELSE last[x]]
+  /\ UNCHANGED <<impl, data, rd, notify, written, acked>>
 
 TakeToken(r) ==
   /\ impl = "v2" /\ ~WakeAll /\ notify = 1 /\ r \in DOMAIN rd /\ rd[r].st = "wait"
   /\ notify' = 0 /\ rd' = [rd EXCEPT ![r].st = "retry"]
-  /\ UNCHANGED <<impl, data, wr, last, written>>
+  /\ UNCHANGED <<impl, data, wr, last, written, acked>>
 
 Cancel(r) == /\ Live(r) /\ ~rd[r].cx /\ rd' = [rd EXCEPT ![r].cx = TRUE]
-             /\ UNCHANGED <<impl, data, notify, wr, last, written>>
+             /\ UNCHANGED <<impl, data, notify, wr, last, written, acked>>
 ReturnVal(r) == /\ r \in DOMAIN rd /\ rd[r].st = "done" /\ rd' = [rd EXCEPT ![r].st = "ret"]
-                /\ UNCHANGED <<impl, data, notify, wr, last, written>>
+                /\ UNCHANGED <<impl, data, notify, wr, last, written, acked>>
 \* a cancelled Await may return the context error from wherever it is (the selects race)
 ReturnErr(r) == /\ Live(r) /\ rd[r].cx /\ rd' = [rd EXCEPT ![r].st = "ret", ![r].got = Err]
-                /\ UNCHANGED <<impl, data, notify, wr, last, written>>
+                /\ UNCHANGED <<impl, data, notify, wr, last, written, acked>>
 
 Expire(d) ==
   /\ LockFree
   /\ data' = [k \in {x \in DOMAIN data : x.d # d} |-> data[k]]
-  /\ UNCHANGED <<impl, rd, notify, wr, last, written>>
+  /\ UNCHANGED <<impl, rd, notify, wr, last, written, acked>>
 
 ---------------------------------------------------------------------------------------------------
 (* Properties (C17). *)
@@ -119,14 +161,18 @@ ReadsCurrent == \A r \in DOMAIN rd : (rd[r].st = "done" /\ Stored(rd[r].k)) => r
 \* the context error is only ever returned to a cancelled reader; no value appears from nowhere
 CancelSound == \A r \in DOMAIN rd : /\ rd[r].got = Err => (rd[r].cx /\ rd[r].st = "ret")
                                     /\ rd[r].st \in {"done", "ret"} => rd[r].got # Nil
-\* no lost wake-up: outside a Store call no reader sleeps on a stored key without a wake-up on its way
+\* no lost wake-up: while no writer holds the write lock no reader sleeps on a stored key without a wake-up on its way
 \* (as coded, a wake-up on its way is a token in the channel; once another reader took it, it is gone)
-NoLostWakeup == ~wr.on => \A r \in DOMAIN rd : ~(rd[r].st = "wait" /\ Stored(rd[r].k) /\ notify = 0)
-TypeOK == /\ notify \in {0, 1} /\ wr.on \in BOOLEAN /\ (WakeAll => notify = 0)
+NoLostWakeup == LockFree => \A r \in DOMAIN rd : ~(rd[r].st = "wait" /\ Stored(rd[r].k) /\ notify = 0)
+TypeOK == /\ notify \in {0, 1} /\ (WakeAll => notify = 0)
+          /\ Cardinality({w \in DOMAIN wr : wr[w].on /\ wr[w].locked}) <= 1
           /\ \A r \in DOMAIN rd : rd[r].st \in {"called", "wait", "retry", "done", "ret"}
 Safety == ReadsStored /\ CancelSound /\ NoLostWakeup /\ TypeOK
 \* a mismatching (or any) store never changes what is stored under an existing key; only expiry removes
 ValueStable == [][\A k \in DOMAIN data : k \in DOMAIN data' => data'[k] = data[k]]_vars
 \* a failing Store call changes nothing but the keys it stored before the mismatch; a mismatch step changes nothing
-MismatchNoChange == [][(wr'.err /\ ~wr.err) => data' = data]_vars
+MismatchNoChange == [][(\E w \in DOMAIN wr : wr'[w].err /\ ~wr[w].err) => data' = data]_vars
+\* what a Store call acknowledged is what is stored (until it expires): with ValueStable this is "of two concurrent
+\* conflicting stores of a fresh key exactly one succeeds".  Only meaningful without expiry (MC configs: MaxExpire = 0).
+AckedStored == \A a \in acked : Stored(a[1]) /\ data[a[1]] = a[2]
 ====
